@@ -1,6 +1,7 @@
 """C17 — results do not depend on input compression: every sub-command under {plain, BGZF} GAF x {plain, gzip} graph."""
 import glob
 import os
+import re
 import pickle
 import shutil
 import sys
@@ -124,6 +125,48 @@ def bgzf_model_check(ck, path, lines, tag):
     # the driver renders every byte as one character (Latin-1): compare as bytes
     if small and [None if x["line"] is None else x["line"].encode("latin-1") for x in r["results"]] != [l.encode() for l in raw]:
         ck.disagreement("the model's seek+readline at pysam's offsets does not return the records", replay)
+
+
+def big_selection_case(ck, rng, tmp):
+    """more than ten thousand records selected by one `view --node` query (beyond any plausible switch to a bulk-reading path),
+    from a plain GAF and from its multi-block BGZF copy: the same records, all of them, in file order"""
+    g = gen.rgfa(rng, max_ref_segs=5)
+    adj = g.adjacency()
+    target = rng.choice(g.segs)["id"]
+    lines = []
+    n = rng.randint(11000, 12500)
+    for k in range(n):
+        if rng.random() < 0.97:
+            w = [(target, rng.choice("+-"))]
+        else:
+            w = gen.walk(rng, g, adj, maxsteps=3)
+        lines.append(gen.walk_record(rng, g, w, "b%d" % k, tags=["tp:A:P", "cg:Z:3="]))
+    expected = [l.split("\t")[0] for l in lines if target in re.findall(r"[<>]([^<>]+)", l.split("\t")[5])]
+    gfa = os.path.join(tmp, "big.gfa")
+    gen.write_text(gfa, g.text())
+    text = "".join(l + "\n" for l in lines)
+    res = {}
+    for kind in ("plain", "bgzf"):
+        gaf = os.path.join(tmp, "big.gaf" + (".gz" if kind == "bgzf" else ""))
+        (gen.write_bgzf if kind == "bgzf" else gen.write_text)(gaf, text)
+        out = os.path.join(tmp, "big.out")
+        try:
+            tool("index", gaf_path=gaf, gfa_path=gfa)
+            tool("view", allow_stdout=True, gaf_path=gaf, gfa=gfa, output=out, nodes=[target])
+            res[kind] = [l.split("\t")[0] for l in open(out).read().splitlines()]
+        except BaseException as e:  # noqa
+            res[kind] = "crash:%s:%s" % (type(e).__name__, str(e)[:100])
+        for f in (gaf, gaf + ".gvi"):
+            if os.path.exists(f):
+                os.remove(f)
+    ck.count("big-selection")
+    ck.case({"big": n}, True)
+    replay = {"records": n, "node": target, "expected": len(expected),
+              "got": {k: (v if isinstance(v, str) else len(v)) for k, v in res.items()}, "gfa": g.text()[:2000]}
+    if res["plain"] != res["bgzf"]:
+        ck.violation("view --node selecting %d records gives a different result for the BGZF copy than for the plain file" % len(expected), replay)
+    elif res["plain"] != expected:
+        ck.violation("view --node selecting more than ten thousand records does not return exactly the records traversing the node, in file order", replay)
 
 
 def count_bgzf_blocks(path):
@@ -258,6 +301,8 @@ def main():
                 else:
                     gen.write_bgzf(small, text, block=blk)
                 bgzf_model_check(ck, small, sub, "small-blocks" if blk else "blocks-at-record-boundaries")
+        for _ in range(1 if quick else 4):
+            big_selection_case(ck, rng, tmp)
     finally:
         shutil.rmtree(tmp, ignore_errors=True)
     ck.rule = "generated graph + GAF (1500 padded records > 64 KiB = several BGZF blocks; smaller files; one file with reads for realign) run through index, view (nodes/region/format/whole), sort(+.gsi), stat, phase, realign, find_path, order_gfa under the four {plain,BGZF} x {plain,gzip} combinations; non-trivial = GAF of >= 2 BGZF blocks or a gzip-compressed graph"
